@@ -38,7 +38,7 @@ func (c17l3) Meta() core.Meta {
 		Assumptions: []string{"one or two preemptions per experiment", "preemption points are library instructions (PC inside the module's text); instructions in the Go runtime are stepped through but never chosen",
 			"a traced process that cannot be driven (lost sync, watchdog) is counted inconclusive, never a violation"},
 		FaultKinds: []string{"preempt-in-asm", "preempt-in-go-glue", "double-preemption", "same-ciphertext-both-open", "history:open-forged", "preempt-after-global-write"},
-		ProbeNames: []string{"global-write-points", "preempted-inside:sm4.sealAsm", "preempted-inside:sm4.openAsm", "preempted-inside:sm4.cryptoBlockAsm", "preempted-inside:sm4.expandKeyAsm", "inconclusive", "calibrations"},
+		ProbeNames: []string{"preempted-inside:sm4.sealAsm", "preempted-inside:sm4.openAsm", "preempted-inside:sm4.cryptoBlockAsm", "preempted-inside:sm4.expandKeyAsm", "inconclusive", "calibrations"},
 		StepUnit:   "single-stepped instructions",
 	}
 }
@@ -141,7 +141,7 @@ func (c17l3) Execute(sc core.Script, keep bool) *core.Result {
 	log := &core.Log{Keep: keep}
 	defer func() {
 		res.EventHash = log.Hash()
-		res.LogLines = log.Lines
+		res.LogLines = append(log.Lines, res.LogLines...)
 	}()
 	if !AsmAvailable() {
 		res.Fingerprint = "skip-no-asm"
@@ -205,7 +205,15 @@ func (c17l3) Execute(sc core.Script, keep bool) *core.Result {
 		}
 	}
 	pair := s.A.Kind + "+" + s.B.Kind
-	log.Add("%s k=%d k2=%d parkedA=%s parkedB=%s aEnded=%v", pair, k, k2, o.PreemptAt, o.Preempt2, o.AEnded)
+	// The event log holds only what a correct library determines: which calls ran, whether
+	// A was parked inside its call, and the verdict. Instruction counts and the exact
+	// preemption address are diagnostics (coverage fingerprint, violation detail): a correct
+	// library may legitimately execute a varying number of its own instructions (a sync.Pool
+	// whose New function runs or not depending on which P a goroutine happens to be on).
+	log.Add("%s parked=%v double=%v", pair, !o.AEnded && o.PreemptAt != "", k2 > 0 && o.Preempt2 != "")
+	if keep {
+		res.LogLines = append(res.LogLines, fmt.Sprintf("(diagnostic) k=%d k2=%d parkedA=%s parkedB=%s", k, k2, o.PreemptAt, o.Preempt2))
+	}
 	res.Interleave = fmt.Sprint(pair, s.A.PtLen, s.B.PtLen, s.A.Msg, s.B.Msg, k, k2)
 	res.Fingerprint = core.Fp(pair, core.LenClass(s.A.PtLen), core.LenClass(s.B.PtLen), o.PreemptAt, fmt.Sprint(k2 > 0))
 	sym := o.PreemptAt
@@ -234,7 +242,7 @@ func (c17l3) Execute(sc core.Script, keep bool) *core.Result {
 	}
 	viol := func(class, role, detail string) {
 		res.Violation = &core.Violation{Class: class, Op: pair, Role: role, Param: "L3", Detail: detail}
-		log.Add("VIOLATION %s %s: %s", class, role, detail)
+		log.Add("VIOLATION %s %s", class, role)
 	}
 	switch {
 	case o.Inconcl != "":
